@@ -76,6 +76,8 @@ type recCloner struct {
 	overlap     int  // Invoke returned while a copy of the request was in progress
 	stallNext   bool
 	stallCh     chan struct{}
+	stallResp   bool          // stall the next copy that is not a copy of the request (the response copy in Invoke)
+	stallRespCh chan struct{}
 	inner       inprocgrpc.Cloner
 }
 
@@ -94,6 +96,11 @@ func (c *recCloner) Copy(out, in interface{}) error {
 		c.stallNext = false
 		c.stallCh = make(chan struct{})
 		stall = c.stallCh
+	}
+	if !isReq && c.stallResp {
+		c.stallResp = false
+		c.stallRespCh = make(chan struct{})
+		stall = c.stallRespCh
 	}
 	c.mu.Unlock()
 	if stall != nil {
@@ -311,10 +318,26 @@ func runUnaryScript(rng *Rng, o iuOpts) *iuScript {
 			}
 			st.evs = eng.settle()
 		case "env.hold":
-			holds.hold(hookPoint[arg])
+			if arg == "cresp" {
+				cl.mu.Lock()
+				cl.stallResp = true
+				cl.mu.Unlock()
+			} else {
+				holds.hold(hookPoint[arg])
+			}
 			held[arg] = true
 		case "env.release":
-			holds.release(hookPoint[arg])
+			if arg == "cresp" {
+				cl.mu.Lock()
+				cl.stallResp = false
+				if cl.stallRespCh != nil {
+					close(cl.stallRespCh)
+					cl.stallRespCh = nil
+				}
+				cl.mu.Unlock()
+			} else {
+				holds.release(hookPoint[arg])
+			}
 			delete(held, arg)
 			st.evs = eng.settle()
 		}
@@ -334,7 +357,7 @@ func runUnaryScript(rng *Rng, o iuOpts) *iuScript {
 			sc.steps = append(sc.steps, exec(op))
 		}
 	} else {
-		kinds := []string{"headers", "data", "trailers", "err", "close"}
+		kinds := []string{"headers", "data", "trailers", "err", "close", "cresp"}
 		if o.allowHolds {
 			for _, k := range kinds {
 				if rng.Chance(30) {
